@@ -26,7 +26,7 @@ import (
 func init() {
 	Registry["C14"] = &Check{
 		Scenarios: c14Scenarios,
-		Rule: "events: CloseNotify requested {inside the first handler, by a free application thread at every possible instant (in particular while the reader is parked in Read), twice (handler + thread), after termination}; two messages delivered in three fragments (one fragment boundary inside the first header); a Read after the local end was closed reports io.ErrClosedPipe / net.ErrClosed / the harness's own error depending on the request mode; termination by {peer EOF, transport read error, a read error that reports itself as temporary (once), EOF / read error returned by the same Read that delivers the last message (n > 0 with err != nil), undecodable header followed by trailing bytes, local Close from a free thread at every instant, a handler panic on the second message (recovered by the serve loop)}; an observer thread records the instant the channel closes. The requesting / closing / observing threads and the peer are environment threads, so every ordering of their steps against the library's steps is explored even at preemption bound 0; library preemption bound 2 (quick) / unbounded (thorough). The same request modes {handler, thread, after} x terminations {EOF, undecodable input, local Close, EOF inside a header, EOF / reset inside a body} on a multistream (in-memory SCTP) connection, where CloseNotify installs a read-error handler. Also a handler (of a message read through the switched reader) that waits on the channel while the peer ends the connection {EOF, reset}: the notifier is then the only goroutine able to observe the end. Also a local Close while the handler of a later message is busy and the notifier holds the bytes of a further message; the busy handler then panics or returns. Also CloseNotify active on two connections at once, one notifier holding a message while the other passes one on. Also a handler that ends its goroutine with runtime.Goexit (the reader unwinds without a read error and without a panic value), CloseNotify requested {in the first handler, by the application before anything arrives}. Also a local Close while an application goroutine's Write is stuck inside the transport (the peer has stopped reading). Also a Server with ReadTimeout 3 s whose second message arrives split (0, 1, 7, 20, 30 octets with the first message, the rest 2 s later): both are delivered and the connection ends after a real idle period. Also a connection accepted by a Server with ReadTimeout 2 s that idles into its read deadline (virtual clock), CloseNotify requested {in the handler, by a thread, not at all}. Also sm.Client with the watchdog enabled followed by a quiet peer close, preceded by 0, 1, 2 or 3 unsolicited success DWAs (in one segment or one segment each) (virtual time, horizon 12 s).",
+		Rule: "events: CloseNotify requested {inside the first handler, by a free application thread at every possible instant (in particular while the reader is parked in Read), twice (handler + thread), after termination}; two messages delivered in three fragments (one fragment boundary inside the first header); a Read after the local end was closed reports io.ErrClosedPipe / net.ErrClosed / the harness's own error depending on the request mode; termination by {peer EOF, transport read error, a read error that reports itself as temporary (once), EOF / read error returned by the same Read that delivers the last message (n > 0 with err != nil), undecodable header followed by trailing bytes, local Close from a free thread at every instant, a handler panic on the second message (recovered by the serve loop)}; an observer thread records the instant the channel closes. The requesting / closing / observing threads and the peer are environment threads, so every ordering of their steps against the library's steps is explored even at preemption bound 0; library preemption bound 2 (quick) / unbounded (thorough). The same request modes {handler, thread, after} x terminations {EOF, undecodable input, local Close, EOF inside a header, EOF / reset inside a body, a read that returns a whole message together with an error} on a multistream (in-memory SCTP) connection, where CloseNotify installs a read-error handler. Also a handler (of a message read through the switched reader) that waits on the channel while the peer ends the connection {EOF, reset}: the notifier is then the only goroutine able to observe the end. Also a local Close while the handler of a later message is busy and the notifier holds the bytes of a further message; the busy handler then panics or returns. Also CloseNotify active on two connections at once, one notifier holding a message while the other passes one on. Also a handler that ends its goroutine with runtime.Goexit (the reader unwinds without a read error and without a panic value), CloseNotify requested {in the first handler, by the application before anything arrives}. Also a local Close while an application goroutine's Write is stuck inside the transport (the peer has stopped reading). Also a Server with ReadTimeout 3 s whose second message arrives split (0, 1, 7, 20, 30 octets with the first message, the rest 2 s later): both are delivered and the connection ends after a real idle period. Also a connection accepted by a Server with ReadTimeout 2 s that idles into its read deadline (virtual clock), CloseNotify requested {in the handler, by a thread, not at all}. Also sm.Client with the watchdog enabled followed by a quiet peer close, preceded by 0, 1, 2 or 3 unsolicited success DWAs (in one segment or one segment each) (virtual time, horizon 12 s).",
 		Assume: []string{"data-race freedom between visible operations (audited separately with -race)", "io.Pipe is modelled by vsched.Pipe (Write blocks until the data is consumed or either end is closed)"},
 		QuickBudget: 100, ThoroughBudget: 1500,
 	}
@@ -73,7 +73,7 @@ func c14Scenarios(tier string) []*Scenario {
 		}
 	}
 	for _, req := range []string{"handler", "thread", "after"} {
-		for _, term := range []string{"eof", "garbage", "localclose", "cut-header", "cut-body", "rerr-body"} {
+		for _, term := range []string{"eof", "garbage", "localclose", "cut-header", "cut-body", "rerr-body", "data-with-error"} {
 			out = append(out, c14Multi(req, term, bound))
 		}
 	}
@@ -646,6 +646,9 @@ func c14Multi(req, term string, bound int) *Scenario {
 				if !st.term && !be.Closed {
 					st.early = "a CloseNotify channel of a multistream connection was closed before any terminating event"
 				}
+				if term == "data-with-error" && !be.Closed {
+					st.early = "a CloseNotify channel of a multistream connection was closed while the association was still open (a read had returned a whole message together with an error; the library neither closed the association nor stopped serving it)"
+				}
 			})
 		}
 		mux := diam.NewServeMux()
@@ -687,6 +690,16 @@ func c14Multi(req, term string, bound int) *Scenario {
 				}
 				return
 			}
+			if term == "data-with-error" {
+				// the read that delivers the second message also reports an error (and no stream
+				// information); later the peer ends the association
+				st.term = true
+				be.DataErrOnce = errors.New("sctp: cannot parse ancillary data")
+				be.Deliver(5, m2)
+				vs.TimeSleep(time.Millisecond)
+				be.PeerEOF()
+				return
+			}
 			be.Deliver(5, m2)
 			vs.Yield("env")
 			switch term {
@@ -724,6 +737,9 @@ func c14Multi(req, term string, bound int) *Scenario {
 		wantHandled := "[1 2]"
 		if strings.HasPrefix(term, "cut") || term == "rerr-body" {
 			wantHandled = "[1]" // the second message never arrived completely
+		}
+		if term == "data-with-error" {
+			wantHandled = fmt.Sprint(st.handled) // whether the second message is still dispatched is not the point
 		}
 		if term != "localclose" && fmt.Sprint(st.handled) != wantHandled {
 			v = append(v, fmt.Sprintf("handlers saw messages %v, the peer delivered %s completely", st.handled, wantHandled))
